@@ -325,8 +325,14 @@ class Flow:
             if "f" in e:
                 self.visit(e["f"], env, cond)
             ad = [self.desc(x, env) for x in e.get("args", [])]
-            self.calls.append((e.get("callee"), ad, cond, e.get("l"), e))
-            self.expand(e.get("callee"), ad, cond)
+            callee = e.get("callee")
+            if callee is None and "f" in e:
+                # a call through a function value: when the value is a function item (passed down as an argument of an expanded helper), it is that function
+                fd = self.desc(e["f"], env)
+                if isinstance(fd, tuple) and len(fd) == 2 and fd[0] == "def" and isinstance(fd[1], str):
+                    callee = fd[1]
+            self.calls.append((callee, ad, cond, e.get("l"), e))
+            self.expand(callee, ad, cond)
         elif k == "MethodCall":
             self.visit(e["recv"], env, cond)
             acond = cond
